@@ -89,8 +89,18 @@ func (m *Machine) callFunc(fr *frame, fn *ssa.Function, args []Value, env []Valu
 		return nil
 	}
 	if m.isAPI(fn) {
-		if v, ok := m.apiCall(fn.Name(), fr, args, c); ok {
+		name := fn.Name()
+		if i := strings.Index(name, "["); i > 0 {
+			name = name[:i] // instantiated generic helper
+		}
+		if v, ok := m.apiCall(name, fr, args, c); ok {
 			return v
+		}
+	}
+	if strings.HasPrefix(fn.Name(), "verifLenOnly") && len(args) == 1 {
+		// harness helper convention: func verifLenOnlyX(n int) []T  ->  a slice with only a (symbolic) length
+		if t, ok := args[0].(*Term); ok {
+			return SliceV{SymLen: t}
 		}
 	}
 	m.noteFn(fn)
